@@ -90,7 +90,7 @@ func c08BarrierStack(cache bool) *c08Stack {
 		st.Ground = nil
 		var c physical.Cache
 		if cache {
-			c = physical.NewCache(c08UnderCache(phys, st.Hooks), 0, logger, &metrics.BlackholeSink{})
+			c = physical.NewCache(c08UnderCache(phys, st.Hooks), st.CacheSize, logger, &metrics.BlackholeSink{})
 			c.SetEnabled(true)
 			phys = c
 		}
